@@ -32,18 +32,20 @@ var (
 )
 
 type cell struct {
-	Side    string `json:"side"`
-	Proto   string `json:"proto"`
-	SrvCert string `json:"srvCert"`
-	SrvName string `json:"srvName"`
-	CliCert string `json:"cliCert"`
-	CliCA   bool   `json:"cliCA"`
-	PeerMax int    `json:"peerMax"`
-	Plain   bool   `json:"plain"`
-	Cfg     string `json:"cfg"`   // ok | badCA | badKey
-	Valid   string `json:"valid"` // label of the server certificate's validity period (valid | expired | justExpired | notYet | soon | endsSoon)
-	Nb      int    `json:"nb"`    // NotBefore - now and NotAfter - now in seconds, taken when the attempt starts
-	Na      int    `json:"na"`
+	Side     string `json:"side"`
+	Proto    string `json:"proto"`
+	SrvCert  string `json:"srvCert"`
+	SrvName  string `json:"srvName"`
+	CliCert  string `json:"cliCert"`
+	CliCA    bool   `json:"cliCA"`
+	PeerMax  int    `json:"peerMax"`
+	Plain    bool   `json:"plain"`
+	Cfg      string `json:"cfg"`      // ok | badCA | badKey
+	Addr     string `json:"addr"`     // exporter side: the collector is given as 127.0.0.1 ("ip") or localhost ("host")
+	SrvChain string `json:"srvChain"` // collector side: "A" | "Bbundle" (leaf from CA B + CA B's certificate in ServerCert)
+	Valid    string `json:"valid"`    // label of the server certificate's validity period (valid | expired | justExpired | notYet | soon | endsSoon)
+	Nb       int    `json:"nb"`       // NotBefore - now and NotAfter - now in seconds, taken when the attempt starts
+	Na       int    `json:"na"`
 }
 
 // period of a server certificate by label
@@ -114,6 +116,7 @@ func mint() {
 		}
 	}
 	srv["otherCA/soon"] = pki.Issue(caB, "collector.verif", in("soon", good))
+	srv["hostSAN"] = pki.Issue(caA, "collector.verif", in("valid", pki.Opts{DNS: []string{"localhost"}}))
 	cpast := pki.Opts{Client: true, NotBefore: time.Now().Add(-48 * time.Hour), NotAfter: time.Now().Add(-24 * time.Hour)}
 	cli = map[string]*pki.Leaf{
 		"trusted": pki.Issue(caA, "exporter", pki.Opts{Client: true}),
@@ -278,6 +281,10 @@ func exporterCell(c cell) obs {
 	if c.Proto == "dtls" {
 		proto = "udp"
 	}
+	if c.Addr == "host" {
+		_, port, _ := net.SplitHostPort(addr)
+		addr = net.JoinHostPort("localhost", port)
+	}
 	done := make(chan struct{})
 	var ep *exporter.ExportingProcess
 	var err error
@@ -367,7 +374,7 @@ func exporterHistory(peerMax int, untrustedFirst bool) []attempt {
 	}
 	var out []attempt
 	for _, st := range steps {
-		c := cell{Side: "exporter", Proto: "tls", SrvCert: "trusted", SrvName: st.name, CliCert: "none", PeerMax: peerMax, Cfg: "ok"}
+		c := cell{Side: "exporter", Proto: "tls", SrvCert: "trusted", SrvName: st.name, CliCert: "none", PeerMax: peerMax, Cfg: "ok", Addr: "ip", SrvChain: "A"}
 		if st.ca == caB {
 			c.SrvCert = "otherCA" // the endpoint's certificate does not chain to what this exporter trusts
 		}
@@ -405,6 +412,10 @@ func collectorCell(c cell) obs {
 	if c.CliCA {
 		in.CACert = caA.CertPEM
 	}
+	if c.SrvChain == "Bbundle" { // the collector's own certificate comes from CA B and is deployed together with CA B's certificate
+		in.ServerCert = append(append([]byte{}, srv["otherCA"].CertPEM...), caB.CertPEM...)
+		in.ServerKey = srv["otherCA"].KeyPEM
+	}
 	cp, err := collector.InitCollectingProcess(in)
 	if err != nil {
 		o.Detail = err.Error()
@@ -436,6 +447,7 @@ func collectorCell(c cell) obs {
 		case c.Proto == "tls":
 			pool := x509.NewCertPool()
 			pool.AppendCertsFromPEM(caA.CertPEM)
+			pool.AppendCertsFromPEM(caB.CertPEM)
 			cfg := &tls.Config{RootCAs: pool, MinVersion: tls.VersionTLS10, MaxVersion: tlsVersion(c.PeerMax)}
 			if c.CliCert != "none" {
 				cert, _ := tls.X509KeyPair(cli[c.CliCert].CertPEM, cli[c.CliCert].KeyPEM)
@@ -520,6 +532,23 @@ func main() {
 			}
 		}
 	}
+	// the collector's certificate chain is no trust anchor for clients
+	for _, cc := range []string{"none", "trusted", "otherCA"} {
+		for _, pm := range []int{12, 13} {
+			cells = append(cells, cell{Side: "collector", Proto: "tls", SrvCert: "trusted", SrvName: "match", CliCert: cc, CliCA: true, PeerMax: pm, SrvChain: "Bbundle"})
+		}
+	}
+	// the collector given by host name: the certificate must carry that name (not merely the address it resolves to)
+	for _, sc := range []string{"trusted", "hostSAN", "noSAN"} {
+		for _, sn := range names {
+			for _, ad := range []string{"ip", "host"} {
+				if sc == "trusted" && ad == "ip" {
+					continue // already in the matrix above
+				}
+				cells = append(cells, cell{Side: "exporter", Proto: "tls", SrvCert: sc, SrvName: sn, CliCert: "none", PeerMax: 13, Addr: ad})
+			}
+		}
+	}
 	cells = append(cells,
 		cell{Side: "collector", Proto: "dtls", SrvCert: "trusted", SrvName: "match", CliCert: "none", PeerMax: 12},
 		cell{Side: "collector", Proto: "tls", SrvCert: "trusted", SrvName: "match", CliCert: "none", CliCA: true, PeerMax: 13, Plain: true},
@@ -537,6 +566,12 @@ func main() {
 	for i := range cells {
 		if cells[i].Cfg == "" {
 			cells[i].Cfg = "ok"
+		}
+		if cells[i].Addr == "" {
+			cells[i].Addr = "ip"
+		}
+		if cells[i].SrvChain == "" {
+			cells[i].SrvChain = "A"
 		}
 	}
 	w.Reset(vt.Ev{})
